@@ -108,7 +108,7 @@ def main(argv):
     dst = os.path.join(VERIF, "seeded", sid)
     os.makedirs(dst, exist_ok=True)
     for fn in os.listdir(sdir):
-        if fn in ("patch.diff", "notes.txt") or fn.startswith("demo."):
+        if (fn in ("patch.diff", "notes.txt") or fn.startswith("demo.")) and os.path.abspath(sdir) != os.path.abspath(dst):
             shutil.copy(os.path.join(sdir, fn), os.path.join(dst, fn))
     old = {}
     mp = os.path.join(dst, "meta.json")
